@@ -11,9 +11,62 @@ from harness.common import (drain_failures, make_orchestrator, parse_json_violat
 from harness.framework import Check
 
 PROP = "C01"
-FLAGS = ["q_py_start_from_code", "q_py_table_from_code", "q_ts_elseif_nests", "q_rs_elseif_nests", "q_rs_table_from_code"]
-LANG_FLAGS = {"Py": FLAGS[0:1], "Ts": [], "Rs": []}  # flags still claimed for the current tree
-HEADER = "From TL Require Import Lib.Base Model.Skel Model.Nesting Model.NestingRun Actual.NestingActual.\n"
+FLAGS = ["q_py_start_from_code", "q_py_table_from_code", "q_ts_elseif_nests", "q_rs_elseif_nests", "q_rs_table_from_code",
+         "q_ts_fn_types_from_code"]
+LANG_FLAGS = {"Py": FLAGS[0:1], "Ts": FLAGS[5:6], "Rs": []}  # flags still claimed for the current tree
+LANGS = ["python", "typescript", "javascript", "rust"]
+
+
+class Renderer(skel.Renderer):
+    """the shared renderer plus the two TS/JS function forms only C01 generates: a function expression bound to a
+    constant and a generator function declaration"""
+
+    def n_ts(self, n, level):
+        if skel.kind_name(n) == "Fn" and n[0][1] in ("FFnExpr", "FGen"):
+            fk, name = n[0][1], n[0][2]
+            col = self.unit * level
+            if fk == "FFnExpr":
+                head = f"const {name} = "
+                self.emit(level, head + "function () {")
+                col += len(head)
+            else:
+                self.emit(level, f"function* {name}() {{")
+            n[0][3], n[0][4] = len(self.lines), col
+            self.body(n[1], level + 1)
+            self.emit(level, "};" if fk == "FFnExpr" else "}")
+            return
+        super().n_ts(n, level)
+
+
+def render(lang, items, **kw):
+    return Renderer(lang, **kw).render(items)
+
+
+def _lang_ok(lang, items):
+    import copy
+    plain = copy.deepcopy(items)
+
+    def strip(nodes):
+        bad = False
+        for n in nodes:
+            if skel.is_fn(n) and n[0][1] in ("FFnExpr", "FGen"):
+                bad = bad or lang not in ("ts", "js")
+                n[0][1] = "FDef"
+            bad = strip(n[1]) or bad
+        return bad
+    if strip(plain):
+        return False
+    return skel.lang_ok(lang, plain)
+
+
+def _sprinkle_fn_forms(nodes, r, p=0.15):
+    """TS/JS: some plain function declarations become function expressions / generator functions"""
+    for n in nodes:
+        if skel.is_fn(n) and n[0][1] in ("FDef", "FAsyncDef") and r.random() < p:
+            n[0][1] = r.choice(["FFnExpr", "FFnExpr", "FGen"])
+        _sprinkle_fn_forms(n[1], r, p)
+
+HEADER = "From TL Require Import Lib.Base Model.Skel Model.Nesting Model.NestingDisc Model.NestingRun Actual.NestingActual.\n"
 MSG_RE = re.compile(r"^Function '(.*)' has excessive nesting depth \((\d+)\)$", re.S)
 
 
@@ -35,15 +88,16 @@ def gen_cases(seed: int, n_files: int, max_depth: int):
         items = g.file()
         if lk == "ts":
             _one_catch(items)
+            _sprinkle_fn_forms(items, r)
         group = []
         for lang in langs:
-            if not skel.lang_ok(lang, items):
+            if not _lang_ok(lang, items):
                 continue
-            text, placed = skel.render(lang, items, top_offset=r.choice([0, 0, 1, 3]))
+            text, placed = render(lang, items, top_offset=r.choice([0, 0, 1, 3]))
             dmax = max([skel.doc_depth(f[1]) for f in skel.functions_of(placed)], default=1)
             c = {"i": i, "mode": mode, "lang": lang, "items": placed, "text": text,
                  "limits": list(range(1, dmax + 3)), "dmax": dmax,
-                 "via": "cli" if r.random() < 0.04 else "api"}
+                 "via": "cli" if r.random() < 0.04 else "api", "cli_seed": r.randint(0, 10 ** 9)}
             cases.append(c)
             group.append(c)
         if mode == "common" and len(group) >= 3 and r.random() < 0.5:
@@ -144,8 +198,10 @@ def run_impl(case):
         f.write_text(case["text"])
         res = []
         if case["via"] == "cli":
+            import random as _random
+            rr = _random.Random(case.get("cli_seed", 0))
             for lim in case["limits"]:
-                rc, so, se = run_cli(["nesting", "--format", "json", "--max-depth", str(lim), str(f)], cwd=d)
+                rc, so, se = run_cli(cli_args(case, lim, d, rr) + [str(f)], cwd=d)
                 vs = parse_json_violations(so)
                 if vs is None or rc not in (0, 1):
                     res.append({"error": f"rc={rc} stdout={so[:200]} stderr={se[-300:]}"})
@@ -160,6 +216,126 @@ def run_impl(case):
             vs = _orch.lint_file(f)
             res.append(_parse([{"rule_id": v.rule_id, "line": v.line, "column": v.column, "message": v.message} for v in vs]))
         return {"runs": res, "failures": drain_failures()}
+
+
+def cli_args(case, lim, d, rr):
+    """three ways of asking for the limit `lim` on the command line, all meaning `lim` by the documented precedence:
+    --max-depth alone; --max-depth over a configuration whose top-level key and language blocks say otherwise;
+    a configuration alone whose block for this file's language (or, without such a block, top-level key) says lim"""
+    mode = rr.choice(["flag", "flag+config", "config"])
+    if mode == "flag":
+        return ["nesting", "--format", "json", "--max-depth", str(lim)]
+    me = LANG_NAME[case["lang"]]
+    other = lambda: rr.choice([x for x in range(1, case["dmax"] + 4) if x != lim])  # noqa: E731
+    sec = {}
+    if mode == "flag+config":
+        sec["max_nesting_depth"] = other()
+        for l in LANGS:
+            if rr.random() < 0.6:
+                sec[l] = {"max_nesting_depth": other()} if rr.random() < 0.8 else {}
+    else:
+        own_block = rr.random() < 0.6
+        if own_block:
+            sec[me] = {"max_nesting_depth": lim}
+            if rr.random() < 0.7:
+                sec["max_nesting_depth"] = other()
+        else:
+            sec["max_nesting_depth"] = lim
+            if rr.random() < 0.3:
+                sec[me] = {}
+        for l in LANGS:
+            if l != me and rr.random() < 0.5:
+                sec[l] = {"max_nesting_depth": other()}
+    cfg = d / f"cfg{lim}.json"
+    cfg.write_text(json.dumps({"nesting": sec}))
+    args = ["nesting", "--format", "json", "--config", str(cfg)]
+    if mode == "flag+config":
+        args += ["--max-depth", str(lim)]
+    return args
+
+
+# ---------------------------------------------------------------- the limit chain at unit level
+def gen_limit_cases(seed, n):
+    out = []
+    for i in range(n):
+        r = rng_for(seed, PROP + "-limit", i)
+        top = r.choice([None, r.randint(1, 9)])
+        blocks = [(l, r.choice([None, r.randint(1, 9), r.randint(1, 9)])) for l in r.sample(LANGS, r.randint(0, 4))]
+        out.append({"top": top, "blocks": blocks, "cli": r.choice([None, None, r.randint(1, 9)]), "language": r.choice(LANGS)})
+    return out
+
+
+def run_limit_cases(cases):
+    """what limit the rule object resolves: --max-depth override applied to the orchestrator configuration
+    (structure_quality._apply_nesting_config_override), then NestingDepthRule._load_config on a context of the
+    language (one rule object for the whole stream, as in a real run)"""
+    from src.cli.linters.structure_quality import _apply_nesting_config_override
+    from src.linters.nesting.linter import NestingDepthRule
+
+    class _Orch:
+        def __init__(self, config):
+            self.config = config
+
+    class _Ctx:
+        def __init__(self, metadata, language):
+            self.metadata, self.language, self.file_path, self.file_content = metadata, language, None, ""
+    rule = NestingDepthRule()
+    out = []
+    from loguru import logger as _logger
+    _logger.disable("src.cli.linters.structure_quality")
+    for c in cases:
+        sec = {}
+        if c["top"] is not None:
+            sec["max_nesting_depth"] = c["top"]
+        for l, v in c["blocks"]:
+            sec[l] = {} if v is None else {"max_nesting_depth": v}
+        orch = _Orch({"nesting": sec} if (sec or c["top"] is not None or c["blocks"]) else {})
+        try:
+            _apply_nesting_config_override(orch, c["cli"], False)
+            out.append(int(rule._load_config(_Ctx(orch.config, c["language"])).max_nesting_depth))
+        except Exception as e:  # noqa: BLE001
+            out.append(f"{type(e).__name__}: {e}")
+    _logger.enable("src.cli.linters.structure_quality")
+    return out
+
+
+def coq_limit_case(c, got) -> str:
+    blocks = coq.coq_list([f"({coq.coq_string(l)}, {coq.coq_option(v)})" for l, v in c["blocks"]])
+    return (f"judge_limit {{| s_top := {coq.coq_option(c['top'])}; s_langs := {blocks} |}} {coq.coq_option(c['cli'])} "
+            f"{coq.coq_string(c['language'])} {got}")
+
+
+def check_limits(chk, seed, n, wd, cases=None):
+    cases = cases if cases is not None else gen_limit_cases(seed, n)
+    gots = run_limit_cases(cases)
+    evals, idx = [], []
+    for j, (c, g) in enumerate(zip(cases, gots)):
+        chk.dist("limit:cli" if c["cli"] is not None else ("limit:block" if any(l == c["language"] and v is not None for l, v in c["blocks"]) else "limit:top-or-default"))
+        if not isinstance(g, int):
+            chk.violation({"reason": "resolving the nesting limit raised", "detail": g, "case": c, "stream": "limit"})
+            continue
+        evals.append(f"Eval vm_compute in ({coq_limit_case(c, g)}).")
+        idx.append(j)
+    shards = ["\n".join(evals[s:s + 200]) for s in range(0, len(evals), 200)]
+    try:
+        outs = coq.eval_shards(wd, HEADER, shards)
+    except RuntimeError as e:
+        chk.broken.append(f"Model:evaluation of the limit model failed ({str(e)[:300]})")
+        return
+    flat = [o for out in outs for o in out]
+    if len(flat) != len(idx):
+        chk.broken.append(f"Model:limit stream returned {len(flat)} results for {len(idx)} cases")
+        return
+    chk.traces_validated += len(flat)
+    for j, bits in zip(idx, flat):
+        impl_ok, model_ok, same = [bool(b) for b in bits]
+        if not impl_ok:
+            chk.violation({"reason": "the limit applied to a file is not the one the documented precedence gives "
+                                     "(command line > language block > top-level key > default)",
+                           "stream": "limit", "case": cases[j], "impl_limit": gots[j], "model_matches_impl": same,
+                           "model_matches_documented": model_ok})
+        elif not same:
+            chk.correspondence_broken({"level": "limit chain", "detail": "Model/NestingDisc.v effective_limit disagrees with the implementation", "case": cases[j], "impl_limit": gots[j]})
 
 
 def coq_case(case, impl) -> str:
@@ -189,22 +365,40 @@ def judge(cases, impls, workdir: Path, per_shard=40):
 
 def run(tier: str, seed: int, replay: str | None = None) -> int:
     chk = Check(PROP, tier, seed)
+    own = Path(__file__).resolve().parent.parent.parent / "known.d" / f"{PROP}.json"
+    if own.exists():  # known.d/C01.json is this check's own list; known_findings.json is assembled from it by tools/mkmanifest.py
+        for f in json.loads(own.read_text()).get("findings", []):
+            if f.get("property") == PROP:
+                chk.known["known" if f.get("status") == "known" else "fixed"][f["key"]] = f
+                if f.get("status") == "known":
+                    chk.known["fixed"].pop(f["key"], None)
+                else:
+                    chk.known["known"].pop(f["key"], None)
     chk.rule = ("seeded random control-flow skeleton files (1-4 top-level functions/classes, depth 0..max, every construct kind of the "
                 "language, nested functions, methods, arrow functions) rendered to .py/.ts/.js/.rs and linted under every limit "
                 "1..doc_depth+2 (in-process Orchestrator, a fraction through the CLI); a case (file, language) is non-trivial when some "
                 "function has documented depth >= 2, i.e. limits on both sides of the boundary are exercised; distinct = distinct (skeleton, language)")
-    chk.trusted_base.append("to_py/to_ts/to_rs (Model/Nesting.v): the statement-level shape of the parse tree of rendered skeletons is a parser oracle, validated by this correspondence")
+    chk.trusted_base.append("to_py/to_ts/to_rs and their tagged versions to_pyd/to_tsd (Model/Nesting.v, Model/NestingDisc.v): the statement-level shape of the parse tree of rendered skeletons, and the name / header position a function node carries, are a parser oracle, validated by this correspondence")
+    chk.rule += ("; limit stream: random nesting sections (top-level key present or not, 0-4 language blocks with or without a key), optional --max-depth, a language; "
+                 "the limit the rule object resolves is compared with the documented precedence and with the Gallina model of from_dict + the override")
     chk.build(["theories/Props/C01.v"], ["NestingGen"], known_v=["theories/Props/C01Known.v"])
     scale = chk.budget_scale()
     n_files = (140 if tier == "quick" else 1500) * scale
     max_depth = 7 if tier == "quick" else 12
     if replay:
-        cases = [json.loads(Path(replay).read_text())["violation"]["case"]]
+        viol = json.loads(Path(replay).read_text())["violation"]
+        if viol.get("stream") == "limit":
+            with scratch_dir("tv-c01-coq-") as wd:
+                check_limits(chk, seed, 1, wd, cases=[viol["case"]])
+            return chk.finish()
+        cases = [viol["case"]]
     else:
         cases = corpus_cases() + gen_cases(seed, n_files, max_depth)
     impls = pool_map(run_impl, cases)
     cases, impls = expand_projects(cases, impls)
     with scratch_dir("tv-c01-coq-") as wd:
+        if not replay:
+            check_limits(chk, seed, (400 if tier == "quick" else 4000) * scale, wd)
         try:
             verdicts = judge(cases, impls, wd)
         except RuntimeError as e:
@@ -264,7 +458,7 @@ def corpus_cases():
     d = Path(__file__).resolve().parent.parent.parent / "corpus" / PROP
     for p in sorted(d.glob("*.json")):
         c = json.loads(p.read_text())
-        text, placed = skel.render(c["lang"], c["items"])
+        text, placed = render(c["lang"], c["items"])
         dmax = max([skel.doc_depth(f[1]) for f in skel.functions_of(placed)], default=1)
         out.append({"i": "corpus:" + p.stem, "mode": "corpus", "lang": c["lang"], "items": placed, "text": text,
                     "limits": list(range(1, dmax + 3)), "dmax": dmax, "via": c.get("via", "api")})
